@@ -237,7 +237,8 @@ def run(ctx):
     ctx.actions_covered.update({"MC_Bech32.PickVer": nv, "MC_Bech32.PickLen": nv * nl, "MC_Bech32.PickRest": nv * nl * 12})
     syn = core.cfg_of("MC_Bech32_syn.cfg")
     # data-part lengths: 39 (42-char P2WPKH), 59 (62-char P2WSH/P2TR mainnet+testnet); thorough: more lengths
-    lens = [39, 59] if ctx.quick else [39, 59, 8, 11, 21, 33, 40, 60, 71, 84]
+    # the longest data part an address can have is 1 + 64 + 6 = 71 symbols (40-byte program)
+    lens = [39, 59] if ctx.quick else [39, 59, 8, 11, 21, 33, 40, 60, 71]
     syn_counts = {}
     for L in lens:
         r = ctx.mc("MC_Bech32", syn.replace("L = 39", "L = %d" % L),
